@@ -243,6 +243,8 @@ template <class T> struct Result {
   T xi = 0, eta = 0;        // northing, easting for a = 1, k0 = 1
   T gamma_deg = 0, k = 0;   // convergence (degrees, in (-180,180]), scale for k0 = 1
   T inv = 0;                // max violation of the invariants at the end point
+  T absS = 0;               // |sin phi| at the end point (phi complex): d log(dz/dw)/dw = -sin phi, the sensitivity of
+                            // convergence (radians) and of log(scale) to a displacement dw = ds/(nu cos phi)
   int steps = 0;
 };
 
@@ -278,6 +280,7 @@ template <class T> inline Result<T> forward(T e2, double lat, double dlon, const
   T srl = fn::Sqrt(1 - e2 * sphi * sphi);
   r.k = cabs(dz) * srl / cphi;
   r.gamma_deg = -fn::Atan2(dz.im, dz.re) / deg<T>();
+  r.absS = cabs(st.S);
   Cx<T> i1 = st.S * st.S + st.C * st.C - Cx<T>(1), i2 = st.s * st.s - (Cx<T>(1) - st.S * st.S * e2);
   T sc1 = norm2(st.S) + norm2(st.C), sc2 = norm2(st.s) + fn::Fabs(e2) * norm2(st.S) + 1;
   T a1 = cabs(i1) / sc1, a2 = cabs(i2) / sc2;
@@ -292,6 +295,8 @@ template <class T> inline Result<T> sphere(double lat, double dlon) {
   if (std::fabs(lat) > 45) { T s2, c2; sincosd<T>(lat > 0 ? 90 - lat : -90 - lat, s2, c2); cp = fn::Fabs(s2); }
   r.ok = true; r.xi = fn::Atan2(sp, cp * cl); r.eta = fn::Atanh(cp * sl);
   r.gamma_deg = fn::Atan2(sp * sl, cl) / deg<T>(); r.k = 1 / fn::Sqrt((1 - cp * sl) * (1 + cp * sl));
+  // |sin phi(w)| = |tanh(psi + i lam)| = sqrt((sinh^2 psi + sin^2 lam)/(sinh^2 psi + cos^2 lam)), sinh psi = tan phi
+  { T n = sp * sp + sl * sl * cp * cp, d = sp * sp + cl * cl * cp * cp; r.absS = d > 0 ? fn::Sqrt(n / d) : T(1e30); }
   return r;
 }
 
